@@ -98,7 +98,7 @@ class SDLParser(gqlfront.Parser):
                         op = self.name()["value"]; self.expect_p(":"); roots[op] = self.name()["value"]
                     self.adv()
                 if ext:
-                    m["roots"] = dict(m["roots"] or {}, **roots)
+                    m.setdefault("ext_roots", {}).update(roots)      # applied on top of the schema definition or of the default root names
                 else:
                     m["roots"] = roots
                 m["schema_directives"] += dirs
@@ -211,6 +211,7 @@ def model_from_sdl(text, extra_scalars=()):
         for op, n in (("query", "Query"), ("mutation", "Mutation"), ("subscription", "Subscription")):
             if n in ts:
                 m["roots"][op] = n
+    m["roots"].update(m.pop("ext_roots", {}))
     for op in ("query", "mutation", "subscription"):
         m["roots"].setdefault(op, None)
     return m
